@@ -18,7 +18,7 @@ from .tlc import MachineryError
 VERIF = Path(__file__).resolve().parent.parent
 
 
-def tours(g: graph.Graph, max_len: int = 4000) -> list[list[dict]]:
+def tours(g: graph.Graph, max_len: int = 4000) -> list[list[int]]:
     """Edge cover by few long tours: follow untraversed edges; when stuck, go on (without a
     reset) to the nearest state with an untraversed out-edge; start a new tour from an initial
     state only when none is reachable or the tour is long enough."""
@@ -69,14 +69,42 @@ def tours(g: graph.Graph, max_len: int = 4000) -> list[list[dict]]:
         cur = u
     if path:
         res.append(path)
+    return res
+
+
+def materialize(g: graph.Graph, paths: list[list[int]]) -> list[list[dict]]:
+    """Index paths -> what the worker needs (the first edge carries the initial state)."""
     out = []
-    for p in res:
+    for p in paths:
         t = []
         for n, i in enumerate(p):
             e = g.edges[i]
             t.append({"from": e["from"], "op": e["op"]} if n == 0 else {"op": e["op"]})
         out.append(t)
     return out
+
+
+def shortest_to(g: graph.Graph, edge_index: int) -> list[int]:
+    """Shortest index path from an initial state that ends with the given edge."""
+    target = graph.key(g.edges[edge_index]["from"])
+    prev: dict = {k: None for k in g.inits}
+    dq = deque(g.inits)
+    while dq:
+        u = dq.popleft()
+        if u == target:
+            break
+        for i, v in g.out[u]:
+            if v not in prev:
+                prev[v] = (u, i)
+                dq.append(v)
+    path = []
+    u = target
+    while prev.get(u) is not None:
+        pu, i = prev[u]
+        path.append(i)
+        u = pu
+    path.reverse()
+    return path + [edge_index]
 
 
 def launch(job: dict, name: str):
